@@ -836,6 +836,20 @@ def e2e_scenarios(rnd, tier):
                             "driftPPM": 0 if linear else rnd.choice([0, 8000, -5000, 20000]),
                             "jumpMs": 0 if linear else rnd.choice([0, 7, -4, 40]), "jumpEach": 500,
                             "tailMs": 500, "tag": "e2e-%s-%s-%d" % (variant, "+".join(t["codec"] for t in cfg["tracks"]), k)})
+    # several audio renditions with the DEFAULT flag on a later one / audio-only with two renditions
+    for variant in ("fmp4", "ll"):
+        for trs, defidx in ((["h264", "aac", "opus"], 2), (["aac", "aac"], 1), (["h264", "aac", "aac"], 2)):
+            cfg = muxgen.make_cfg(rnd, variant, tracks=list(trs), seg_min_ms=700, part_min_ms=150, seg_count=40, disk=False, query="")
+            for ti, t in enumerate(cfg["tracks"]):
+                t.pop("def", None)
+                if t["codec"] in ("aac", "opus"):
+                    t["name"], t["lang"] = "r%d" % ti, ["en", "de", "it"][ti % 3]
+            cfg["tracks"][defidx]["def"] = True
+            steps = muxgen.gen_steps(rnd, cfg, 900, start_s=rnd.choice([0, 5]), irregular=False, gop=10, changes=0, vdur=3000)
+            tmin = min(st_["dts"] / muxgen.rate_of(cfg["tracks"][st_["t"]]) for st_ in steps)
+            steps = [st_ for st_ in steps if st_["dts"] / muxgen.rate_of(cfg["tracks"][st_["t"]]) - tmin <= 4.5]
+            scs.append({"cfg": cfg, "steps": steps, "entry": "multi", "attachMs": 50, "driftPPM": 0, "jumpMs": 0, "jumpEach": 500, "tailMs": 400,
+                        "tag": "e2e-%s-def%d-%s" % (variant, defidx, "+".join(trs))})
     # sub-second segments in Low-Latency mode (repaired defect: TARGETDURATION 0 -> CAN-SKIP-UNTIL 0 -> delta update skips everything)
     cfg = muxgen.make_cfg(rnd, "ll", tracks=["h264", "aac"], seg_min_ms=200, part_min_ms=50, seg_count=40, disk=False, query="")
     steps = muxgen.gen_steps(rnd, cfg, 600, start_s=0, irregular=False, gop=5, changes=0, vdur=3000)
@@ -947,7 +961,13 @@ def annotate_e2e(run):
                 sid = rd["uri"].split("_stream")[0]
                 digits = "".join(c for c in sid if c.isdigit())
                 if digits:
-                    order.append((int(digits), rd["name"], rd["lang"], rd["def"]))
+                    t = int(digits)
+                    # the default flag is judged against the muxer's configuration (the marked track, else the first audio track),
+                    # name and language against what the muxer advertised (it generates a name when none is configured)
+                    marked = any(x["def"] for x in tracks)
+                    first_audio = next((i + 1 for i, x in enumerate(tracks) if x["kind"] == "a"), 0)
+                    want_def = tracks[t - 1]["def"] if marked else (1 if t == first_audio else 0)
+                    order.append((t, rd["name"], rd["lang"], want_def))
     exp = [{"codec": tracks[t - 1]["codec"], "rate": crate(t), "name": n, "lang": lg, "def": df, "params": 1} for (t, n, lg, df) in order]
     emt = [t for (t, _, _, _) in order]
     origin = None
